@@ -41,8 +41,17 @@ func body10(s scn, m cancelMode, readTimeout time.Duration, stall bool) Body {
 // body10s: silentAfter > 0 makes the server fall silent after that many script steps (only
 // the cancellation can end the query then).
 func body10s(s scn, m cancelMode, readTimeout time.Duration, stall bool, silentAfter int) Body {
+	return body10p(s, m, readTimeout, stall, silentAfter, "")
+}
+
+// body10p: prelude != "" gives the client a history (an earlier query that ended well or
+// with a server exception) before the query that is cancelled.
+func body10p(s scn, m cancelMode, readTimeout time.Duration, stall bool, silentAfter int, prelude string) Body {
 	return func() Outcome {
 		name := "C10/" + s.name
+		if prelude != "" {
+			name += "-after-" + prelude
+		}
 		if silentAfter > 0 {
 			name += "-silent"
 		}
@@ -57,6 +66,9 @@ func body10s(s scn, m cancelMode, readTimeout time.Duration, stall bool, silentA
 			return Outcome{Key: name + "/handshake-failed", Detail: err.Error()}
 		}
 		defer vsched.Quiet(func() { _ = c.C.Close() })
+		if msg := c.Prelude(prelude); msg != "" {
+			return Outcome{Key: name + "/prelude-failed", Detail: msg}
+		}
 		if stall {
 			c.C.StallWrites = true
 		}
@@ -288,7 +300,7 @@ func bodyHandshakeCancel(m cancelMode, helloAfter time.Duration, readTimeout tim
 
 // C10 — cancellation ends the query promptly, sends Cancel and closes the connection.
 func C10(c *vk.Ctx) {
-	c.Rule("scenarios {select, insert, streamed insert, LZ4 select, select with telemetry, insert with stalled writes, select and insert during which the server falls silent, handshake with prompt / late / no hello} x {explicit cancel() from a canceller thread placed by the scheduler at every point of every other thread, context deadline at fake 1 s and 5 s, explicit cancel of a context that also carries a 1 h deadline} x read timeout {3 s, 100 ms} x all schedules (incl. clock steps) up to the deviation bound. distinct_nontrivial = executions.")
+	c.Rule("scenarios {select, insert, streamed insert, LZ4 select, select with telemetry, insert with stalled writes, select and insert during which the server falls silent, select and insert (also with a silent server) on a client whose previous query ended with a server exception or ended well, handshake with prompt / late / no hello} x {explicit cancel() from a canceller thread placed by the scheduler at every point of every other thread, context deadline at fake 1 s and 5 s, explicit cancel of a context that also carries a 1 h deadline} x read timeout {3 s, 100 ms} x all schedules (incl. clock steps) up to the deviation bound. distinct_nontrivial = executions.")
 	quick := c.Quick()
 	bound := 1
 	if !quick {
@@ -336,6 +348,26 @@ func C10(c *vk.Ctx) {
 		}
 	}
 	jobs = append(jobs, job{"select/cancel+deadline1h/rt=0s", body10(scs[3], farModes[0], 0, false), bound, true, "C10/select"})
+	// clients with a history: an earlier query on the same client ended well / with a
+	// server exception (the client stays open); then the cancelled query
+	for _, s := range scs {
+		if s.name != "select" && s.name != "insert" {
+			continue
+		}
+		for _, pre := range []string{"exception", "ok"} {
+			for _, m := range []cancelMode{{"cancel", 0, 0}, {"deadline1s", time.Second, 0}} {
+				if quick && pre == "ok" && m.deadline > 0 {
+					continue
+				}
+				id := fmt.Sprintf("%s-after-%s/%s", s.name, pre, m.name)
+				jobs = append(jobs, job{id, body10p(s, m, 0, false, 0, pre), bound, true, "C10/" + s.name + "-after-" + pre})
+				if pre == "exception" {
+					id = fmt.Sprintf("%s-after-%s-silent/%s", s.name, pre, m.name)
+					jobs = append(jobs, job{id, body10p(s, m, 0, false, 3, pre), bound, true, "C10/" + s.name + "-after-" + pre + "-silent"})
+				}
+			}
+		}
+	}
 	for _, m := range modes {
 		id := fmt.Sprintf("insert-stall/%s", m.name)
 		jobs = append(jobs, job{id, body10(scs[0], m, 0, true), bound, true, "C10/insert-stall"})
